@@ -4939,6 +4939,7 @@ fn run_part_c(ctx: &mut Ctx, r: &mut Rng, n: u64) {
         }
     };
     run_part_c_boundary(ctx, &rt);
+    run_part_c_nexthop(ctx, &rt, r);
     let mut svc = make_service();
     for i in 0..n {
         if !ctx.rep.in_budget() {
@@ -5509,6 +5510,380 @@ fn run_part_c_boundary(ctx: &mut Ctx, rt: &tokio::runtime::Runtime) {
         });
         if !ok || !matches!(del, Ok(Ok(_))) {
             svc = make_service();
+        }
+    }
+}
+
+// ------------------------------------------------------------------ next-hop carriers of an API path (MP_REACH / NEXT_HOP)
+
+fn family_group(f: Family) -> &'static str {
+    match f {
+        Family::IPV4 | Family::IPV6 => "unicast",
+        Family::IPV4_MC | Family::IPV6_MC => "multicast",
+        Family::IPV4_MPLS | Family::IPV6_MPLS => "labeled",
+        Family::IPV4_VPN | Family::IPV6_VPN => "vpn",
+        Family::L2VPN_EVPN => "evpn",
+        Family::IPV4_FLOWSPEC | Family::IPV6_FLOWSPEC => "flowspec",
+        Family::IPV4_FLOWSPEC_VPN | Family::IPV6_FLOWSPEC_VPN => "flowspec-vpn",
+        Family::LS => "ls",
+        Family::IPV4_SRPOLICY | Family::IPV6_SRPOLICY => "sr-policy",
+        Family::IPV4_MUP | Family::IPV6_MUP => "mup",
+        Family::RTC => "rtc",
+        _ => "other",
+    }
+}
+
+/// Ask the real UPDATE parser: is an MP_REACH_NLRI of `fam` whose next-hop field is the
+/// one in `mp` (daemon-internal layout [AFI:2][SAFI:1][NH_LEN:1][next hop][reserved:1])
+/// followed by `nlri` an acceptable announcement, and with which next hop?
+fn wire_accepts_mp_reach(fam: Family, mp: &[u8], nlri: &[u8]) -> Result<Option<bgp::Nexthop>, String> {
+    if mp.len() < 4 {
+        return Err("MP_REACH value shorter than AFI/SAFI/next-hop length".into());
+    }
+    // Only the next-hop field is taken from the API attribute (that is all local_path
+    // reads); AFI/SAFI are the path's family, the reserved octet and the NLRI are ours.
+    let nh_len = mp[3] as usize;
+    if mp.len() < 4 + nh_len {
+        return Err(format!("next hop truncated: length {} but {} octets follow", nh_len, mp.len() - 4));
+    }
+    let mut v = Vec::new();
+    v.extend_from_slice(&fam.afi().to_be_bytes());
+    v.push(fam.safi());
+    v.extend_from_slice(&mp[3..4 + nh_len]);
+    v.push(0);
+    v.extend_from_slice(nlri);
+    let mut pa = Vec::new();
+    for a in base_wattrs(&mut Rng::new(7)) {
+        put_attr(&mut pa, &a);
+    }
+    let mut m = wa(Attribute::MP_REACH, v);
+    m.force_ext = true;
+    put_attr(&mut pa, &m);
+    let mut msg = vec![0xffu8; 16];
+    msg.extend_from_slice(&((19 + 4 + pa.len()) as u16).to_be_bytes());
+    msg.push(2);
+    msg.extend_from_slice(&0u16.to_be_bytes());
+    msg.extend_from_slice(&(pa.len() as u16).to_be_bytes());
+    msg.extend_from_slice(&pa);
+    let mut codec = new_codec(false);
+    let parsed = match guard(|| codec.parse_message(&msg)) {
+        Err(p) => return Err(format!("parser panics at {}", p.location)),
+        Ok(Err(n)) => return Err(format!("NOTIFICATION {}/{}", n.notification_code(), n.notification_subcode())),
+        Ok(Ok(m)) => m,
+    };
+    let msgs: Vec<bgp::Message> = match packet::validate_message(parsed, false) {
+        Err(n) => return Err(format!("NOTIFICATION {}/{}", n.notification_code(), n.notification_subcode())),
+        Ok(it) => it.collect(),
+    };
+    for m in msgs {
+        if let bgp::Message::Update(bgp::Update::Reach { family, nexthop, entries, .. }) = m {
+            if family == fam && !entries.is_empty() {
+                return Ok(nexthop);
+            }
+        }
+    }
+    Err("the UPDATE is not an announcement for the family (treated as withdraw / ignored)".into())
+}
+
+const NH4: &str = "192.0.2.1";
+const NH6: &str = "2001:db8::1";
+const NHLL: &str = "fe80::1";
+
+/// (label, next-hop carrying attributes in submission order)
+fn nexthop_forms(fam: Family) -> Vec<(String, Vec<api::Attribute>)> {
+    let raw = |tail: &[u8]| {
+        let mut v = fam.afi().to_be_bytes().to_vec();
+        v.push(fam.safi());
+        v.extend_from_slice(tail);
+        api_unknown(14, 0x80, v)
+    };
+    let s = |x: &str| x.to_string();
+    let other = if fam == Family::IPV6 { Family::IPV4_VPN } else { Family::IPV6 };
+    let v4 = [192u8, 0, 2, 1];
+    let v6 = "2001:db8::1".parse::<Ipv6Addr>().unwrap().octets();
+    let ll = "fe80::1".parse::<Ipv6Addr>().unwrap().octets();
+    let cat = |parts: &[&[u8]]| -> Vec<u8> { parts.iter().flat_map(|p| p.iter().copied()).collect() };
+    let mut f: Vec<(String, Vec<api::Attribute>)> = vec![
+        (s("none"), vec![]),
+        (s("mp/0"), vec![api_mp_reach(Some(fam), vec![])]),
+        (s("mp/1-v4"), vec![api_mp_reach(Some(fam), vec![s(NH4)])]),
+        (s("mp/1-v6"), vec![api_mp_reach(Some(fam), vec![s(NH6)])]),
+        (s("mp/2-v6+ll"), vec![api_mp_reach(Some(fam), vec![s(NH6), s(NHLL)])]),
+        (s("mp/2-v4+v4"), vec![api_mp_reach(Some(fam), vec![s(NH4), s("192.0.2.2")])]),
+        (s("mp/2-v4+v6"), vec![api_mp_reach(Some(fam), vec![s(NH4), s(NH6)])]),
+        (s("mp/bad-garbage"), vec![api_mp_reach(Some(fam), vec![s("garbage")])]),
+        (s("mp/bad-empty-string"), vec![api_mp_reach(Some(fam), vec![s("")])]),
+        (s("mp/bad-cidr"), vec![api_mp_reach(Some(fam), vec![s("192.0.2.1/32")])]),
+        (s("mp/bad-then-good"), vec![api_mp_reach(Some(fam), vec![s("garbage"), s(NH4)])]),
+        (s("mp/family-none"), vec![api_mp_reach(None, vec![s(NH4)])]),
+        (s("mp/inner-flowspec4-0"), vec![api_mp_reach(Some(Family::IPV4_FLOWSPEC), vec![])]),
+        (s("mp/inner-flowspec6vpn-0"), vec![api_mp_reach(Some(Family::IPV6_FLOWSPEC_VPN), vec![])]),
+        (s("mp/inner-other-1"), vec![api_mp_reach(Some(other), vec![s(NH4)])]),
+        (s("raw/nhlen0"), vec![raw(&[0, 0])]),
+        (s("raw/nhlen0-no-reserved"), vec![raw(&[0])]),
+        (s("raw/nhlen0-trailing"), vec![raw(&[0, 0, 1, 2, 3])]),
+        (s("raw/nhlen3"), vec![raw(&[3, 1, 2, 3, 0])]),
+        (s("raw/nhlen4"), vec![raw(&cat(&[&[4], &v4, &[0]]))]),
+        (s("raw/nhlen4-truncated"), vec![raw(&[4, 192, 0, 0])]),
+        (s("raw/nhlen5"), vec![raw(&cat(&[&[5], &v4, &[9, 0]]))]),
+        (s("raw/nhlen12-rd"), vec![raw(&cat(&[&[12], &[0u8; 8], &v4, &[0]]))]),
+        (s("raw/nhlen16"), vec![raw(&cat(&[&[16], &v6, &[0]]))]),
+        (s("raw/nhlen24-rd"), vec![raw(&cat(&[&[24], &[0u8; 8], &v6, &[0]]))]),
+        (s("raw/nhlen32"), vec![raw(&cat(&[&[32], &v6, &ll, &[0]]))]),
+        (s("raw/nhlen32-ll-zero"), vec![raw(&cat(&[&[32], &v6, &[0u8; 16], &[0]]))]),
+        (s("raw/nhlen255"), vec![raw(&cat(&[&[255], &v6, &[0]]))]),
+        (s("raw/short"), vec![api_unknown(14, 0x80, vec![0])]),
+        (s("raw/empty"), vec![api_unknown(14, 0x80, vec![])]),
+        (s("nh/v4"), vec![api_next_hop(NH4)]),
+        (s("nh/v6"), vec![api_next_hop(NH6)]),
+        (s("nh/empty"), vec![api_next_hop("")]),
+        (s("nh/garbage"), vec![api_next_hop("garbage")]),
+        (s("nh-v4+mp/inner-flowspec4-0"), vec![api_next_hop(NH4), api_mp_reach(Some(Family::IPV4_FLOWSPEC), vec![])]),
+        (s("mp/inner-flowspec4-0+nh-v4"), vec![api_mp_reach(Some(Family::IPV4_FLOWSPEC), vec![]), api_next_hop(NH4)]),
+        (s("mp/1-v4+raw/nhlen0"), vec![api_mp_reach(Some(fam), vec![s(NH4)]), raw(&[0, 0])]),
+    ];
+    f.retain(|(_, v)| v.len() <= 2);
+    f
+}
+
+fn run_part_c_nexthop(ctx: &mut Ctx, rt: &tokio::runtime::Runtime, r: &mut Rng) {
+    let mut svc = make_service();
+    for (fam, fname) in FAMILIES.iter() {
+        let fam = *fam;
+        let group = family_group(fam);
+        // a valid NLRI of the family, in its canonical API form
+        let (api_nlri, internal) = {
+            let mut found = None;
+            for _ in 0..20 {
+                let (typed, _, judged) = gen_nlri(fam, r);
+                if !judged {
+                    continue;
+                }
+                let mut c = new_codec(false);
+                if let Ok((d, _)) = wire_nlri(&mut c, false, fam, &typed, 0, &gen_nh(fam, r), &base_wattrs(r)) {
+                    if d.entries.len() == 1 {
+                        let n = d.entries[0].nlri.clone();
+                        if let Ok(m) = guard(|| nlri_to_api(&n)) {
+                            if matches!(guard(|| net_from_api(m.clone(), fam)), Ok(Ok(ref b)) if b == &n) {
+                                found = Some((m, n));
+                                break;
+                            }
+                        }
+                    }
+                }
+            }
+            match found {
+                Some(x) => x,
+                None => {
+                    ctx.rep.count("c:nexthop:no-nlri-for-family");
+                    continue;
+                }
+            }
+        };
+        let nlri_bytes = internal.encode_to_bytes();
+        for (label, carriers) in nexthop_forms(fam) {
+            ctx.rep.eval();
+            ctx.rep.count(&format!("c:nexthop-in:{}", group));
+            ctx.rep.count(&format!("c:nexthop-form:{}", label));
+            let mut pattrs = vec![api_origin(0)];
+            pattrs.extend(carriers.iter().cloned());
+            let path = api::Path { nlri: Some(api_nlri.clone()), pattrs, family: Some(family_to_api(fam)), ..Default::default() };
+            let desc = trunc(format!("{:?}", path));
+            let wit = |extra: Vec<(&str, Json)>| {
+                let mut v = vec![
+                    ("family", Json::s(fname.to_string())),
+                    ("next_hop_form", Json::s(label.clone())),
+                    ("submitted", Json::s(desc.clone())),
+                ];
+                v.extend(extra);
+                Json::obj(v)
+            };
+            // what the wire parser says about every MP_REACH the client supplied
+            let mut wire_refusal: Option<(bool, String, String)> = None; // (nh_len == 0, reason, bytes)
+            let mut wire_nexthop: Option<Option<bgp::Nexthop>> = None;
+            let mut n_mp = 0;
+            for c in carriers.iter() {
+                if let Ok(Ok(a)) = guard(|| attr_from_api(c.clone())) {
+                    if a.code() == Attribute::MP_REACH {
+                        n_mp += 1;
+                        let b = a.binary().cloned().unwrap_or_default();
+                        match wire_accepts_mp_reach(fam, &b, &nlri_bytes) {
+                            Ok(nh) => wire_nexthop = Some(nh),
+                            Err(e) => {
+                                if wire_refusal.is_none() {
+                                    wire_refusal = Some((b.get(3).copied().unwrap_or(0) == 0, e, hex(&b)));
+                                }
+                            }
+                        }
+                    }
+                }
+            }
+            let added = guard(|| {
+                rt.block_on(async {
+                    svc.add_path(tonic::Request::new(api::AddPathRequest {
+                        table_type: api::TableType::Global as i32,
+                        vrf_id: String::new(),
+                        path: Some(path),
+                    }))
+                    .await
+                })
+            });
+            let uuid = match added {
+                Err(p) => {
+                    let w = wit(vec![]);
+                    ctx.panic_violation("GrpcService::add_path", &p, w);
+                    svc = make_service();
+                    continue;
+                }
+                Ok(Err(_)) => {
+                    ctx.rep.count("c:nexthop:rejected");
+                    if wire_refusal.is_some() {
+                        ctx.rep.count("c:nexthop:wire-refuses-and-api-refuses");
+                    } else if n_mp > 0 {
+                        ctx.rep.count("c:nexthop:api-stricter-than-wire(allowed)");
+                    }
+                    continue;
+                }
+                Ok(Ok(resp)) => resp.into_inner().uuid,
+            };
+            ctx.rep.count("c:nexthop:accepted");
+            ctx.rep.count(&format!("c:nexthop:accepted:{}", group));
+            ctx.rep.nontrivial(fnv64(desc.as_bytes()));
+            let changes = svc.tables.collect_loc_rib_paths(fam);
+            let stored: Option<Option<bgp::Nexthop>> = changes
+                .iter()
+                .find(|c| c.net == internal)
+                .and_then(|c| c.current_paths.first().map(|p| p.nexthop));
+            let mut healthy = true;
+            match stored {
+                None => {
+                    ctx.rep.violation(
+                        &format!("C17/store-show/{}/path-count", fname),
+                        "add_path succeeded but the path is not in the Loc-RIB",
+                        wit(vec![]),
+                    );
+                    healthy = false;
+                }
+                Some(stored_nh) => {
+                    // (2) accepted through the API => the parser accepts the same MP_REACH
+                    if let Some((zero, why, bytes)) = &wire_refusal {
+                        ctx.rep.violation(
+                            &format!("C17/invariant/mp-reach/{}/{}", if *zero { "nexthop-missing" } else { "nexthop-malformed" }, group),
+                            &format!(
+                                "add_path accepts a path whose MP_REACH_NLRI the UPDATE parser refuses for this family ({}); it is stored with next hop {:?}",
+                                why, stored_nh
+                            ),
+                            wit(vec![("mp_reach_internal_hex", Json::s(bytes.clone())), ("parser", Json::s(why.clone())), ("stored_nexthop", Json::s(format!("{:?}", stored_nh)))]),
+                        );
+                    } else if let (Some(w), 1) = (wire_nexthop, carriers.len()) {
+                        if n_mp == 1 {
+                            ctx.rep.count("c:nexthop:accepted-and-parser-accepts");
+                            if w != stored_nh {
+                                ctx.rep.violation(
+                                    &format!("C17/invariant/mp-reach/nexthop-differs/{}", group),
+                                    &format!("the next hop stored from an MP_REACH_NLRI ({:?}) is not the one the UPDATE parser reads from it ({:?})", stored_nh, w),
+                                    wit(vec![]),
+                                );
+                            }
+                        }
+                    }
+                    if carriers.is_empty() {
+                        // no next hop supplied: documented "fill in self on export", not judged
+                        ctx.rep.count("unjudged:path-without-any-next-hop-attribute(self next hop on export)");
+                    }
+                    // (c) both next hops of a global + link-local pair are shown back
+                    if label == "mp/2-v6+ll" {
+                        if let Ok(Ok(l)) = guard(|| list_global(rt, &svc, fam)) {
+                            let shown: Vec<String> = l
+                                .iter()
+                                .flat_map(|d| d.paths.iter())
+                                .flat_map(|p| p.pattrs.iter())
+                                .flat_map(|a| match &a.attr {
+                                    Some(api::attribute::Attr::MpReach(m)) => m.next_hops.clone(),
+                                    Some(api::attribute::Attr::NextHop(n)) => vec![n.next_hop.clone()],
+                                    _ => vec![],
+                                })
+                                .collect();
+                            ctx.rep.count("c:nexthop:global+link-local-checked");
+                            if !(shown.iter().any(|x| x == NH6) && shown.iter().any(|x| x == NHLL)) {
+                                ctx.rep.violation(
+                                    "C17/store-show/mp-families/link-local-nexthop-dropped",
+                                    &format!("MP_REACH next_hops [{}, {}] (global + link-local, the form list_path itself shows for a learned path) is listed as {:?}", NH6, NHLL, shown),
+                                    wit(vec![("stored_nexthop", Json::s(format!("{:?}", stored_nh)))]),
+                                );
+                            }
+                        }
+                    }
+                    // (3) use after accept: what a peer of every role would be sent must decode
+                    // An IPv4-unicast route with an IPv6 next hop is accepted by the parser as
+                    // well (RFC 8950 form); whether it can be sent to a peer depends on the
+                    // extended-next-hop capability of that session, which is not this property.
+                    let rfc8950 = fam == Family::IPV4 && matches!(stored_nh, Some(bgp::Nexthop::V6(_)) | Some(bgp::Nexthop::V6LinkLocal(..)));
+                    if rfc8950 {
+                        ctx.rep.count("unjudged:ipv4-unicast-with-ipv6-next-hop(export needs RFC 8950 on the session)");
+                    }
+                    for (role, rname) in ROLES.iter() {
+                        if rfc8950 {
+                            break;
+                        }
+                        let ectx = export_ctx(*role);
+                        for ch in changes.iter().filter(|c| c.net == internal) {
+                            let frames = guard(|| {
+                                let mut em = ExportMap::default();
+                                let mut pending = crate::peer_tx::PendingTx::new(false);
+                                process_nlri_change(ch, 1, "198.51.100.9".parse().unwrap(), &mut em, &mut pending, &ectx, None, None, None, None, None);
+                                let mut out: Vec<Vec<u8>> = Vec::new();
+                                for m in pending.drain_messages(fam) {
+                                    let mut c = new_codec(false);
+                                    let mut buf = bytes::BytesMut::new();
+                                    let _ = c.encode_to(&m, &mut buf);
+                                    out.push(buf.to_vec());
+                                }
+                                out
+                            });
+                            match frames {
+                                Err(p) => {
+                                    ctx.rep.violation(
+                                        &format!("C17/unsafe-accept/{}", p.location),
+                                        &format!("a path accepted by add_path panics when exported / encoded for a {} peer at {} ({})", rname, p.location, trunc(p.message.clone())),
+                                        wit(vec![]),
+                                    );
+                                }
+                                Ok(frames) => {
+                                    if frames.is_empty() {
+                                        ctx.rep.count("c:nexthop:not-exported-to-role");
+                                    }
+                                    for buf in frames {
+                                        for part in split_messages(&buf) {
+                                            let mut c = new_codec(false);
+                                            match decode_update(&mut c, part) {
+                                                Ok(d) if d.n_err == 0 && d.entries.iter().any(|e| e.nlri == internal) && (d.nexthop.is_some() || is_flowspec(fam)) => {
+                                                    ctx.rep.count("c:nexthop:exported-and-decoded");
+                                                }
+                                                other => {
+                                                    let why = match other {
+                                                        Ok(d) => format!("decoded with {} attribute errors, next hop {:?}, {} NLRIs", d.n_err, d.nexthop, d.entries.len()),
+                                                        Err(e) => e,
+                                                    };
+                                                    ctx.rep.violation(
+                                                        &format!("C17/invariant/mp-reach/export-not-decodable/{}", group),
+                                                        &format!("the UPDATE a {} peer would be sent for an accepted path is refused by the UPDATE parser: {}", rname, why),
+                                                        wit(vec![("update_hex", Json::s(trunc(hex(part))))]),
+                                                    );
+                                                }
+                                            }
+                                        }
+                                    }
+                                }
+                            }
+                        }
+                    }
+                }
+            }
+            let del = guard(|| rt.block_on(async { svc.delete_path(tonic::Request::new(api::DeletePathRequest { uuid, ..Default::default() })).await }));
+            if !healthy || !matches!(del, Ok(Ok(_))) || !svc.tables.collect_loc_rib_paths(fam).is_empty() {
+                svc = make_service();
+            }
         }
     }
 }
